@@ -424,10 +424,15 @@ class POP3CommandHandler:
         msg_bytes = msg_as_bytes(msg)
         size = len(msg_bytes)
         msg_bytes = dot_stuff(msg_bytes)
+
+        # The terminating `.` must be on a line of its own. If the message
+        # already ends with a line break adding another one would deliver
+        # two octets more than the size we announce.
+        #
+        if not msg_bytes.endswith(b"\r\n"):
+            msg_bytes += b"\r\n"
         await self.client.push(
-            f"+OK {size} octets\r\n".encode("latin-1")
-            + msg_bytes
-            + b"\r\n.\r\n"
+            f"+OK {size} octets\r\n".encode("latin-1") + msg_bytes + b".\r\n"
         )
         return True
 
